@@ -239,7 +239,9 @@ def rule_r3(facts, rep, rid="C10-R3"):
                 skip = [x for x in fb.walk(l) if x.get("k") == "continue"]
                 it = [x for x in fb.walk(iff["t"]) if x.get("k") == "match" and x.get("src") == "ForLoopDesugar"]
                 lossy = [y["name"] for x in it[:1] for y in fb.walk(x["e"]) if y.get("k") == "mcall" and y["name"] in LOSSY]
-                if ext and psh and not skip and not lossy and "child.children" in fb.show(ext[0]["args"][0]).replace(" ", ""):
+                ext_arg = fb.show_canon(g, ext[0]["args"][0]).replace(" ", "") if ext else ""
+                tested = fb.show_canon(g, i0["c"]).replace(" ", "")
+                if ext and psh and not skip and not lossy and ext_arg in ("b0.children.clone()", "b0.children.iter().cloned()", "b0.children.to_vec()") and tested == "b0.id_eq(P1)":
                     rec = any(y.get("k") == "mcall" and fb.callee(y) == g.def_ for y in fb.walk(psh[0]))
                     if rec:
                         oku = True
@@ -319,25 +321,26 @@ def rule_r4(facts, rep, rid="C10-R4"):
     # scope selectors themselves
     t = facts.fn("Tree::get_surrounding_list_id")
     rep.saw_fn(t)
-    txt = fb.show(t.body, maxdepth=30).replace(" ", "")
+    txt = fb.show_canon(t, t.body, maxdepth=30).replace(" ", "")
     key = t.def_ + "|nearest-list-parent"
-    if txt.startswith("{if(self.is_list()&&self.parent_of(id)){returnself.id}"):
+    if txt.startswith(("{if(self.is_list()&&self.parent_of(P1)){returnself.id}", "{if(self.parent_of(P1)&&self.is_list()){returnself.id}")):
         rep.ok(rid, key, "returns the list that is the direct parent of the item", t.loc)
     else:
         rep.violation(rid, key, "get_surrounding_list_id no longer returns the list directly containing the item", t.loc)
     t = facts.fn("Tree::get_top_level_surrounding_list_id")
     rep.saw_fn(t)
-    txt = fb.show(t.body, maxdepth=30).replace(" ", "")
+    txt = fb.show_canon(t, t.body, maxdepth=30).replace(" ", "")
     key = t.def_ + "|outermost-list"
-    if txt.startswith("{if(self.contains(id)&&self.is_list()){returnself.id}") or txt.startswith("{if(self.is_list()&&self.contains(id)){returnself.id}"):
+    if txt.startswith("{if(self.contains(P1)&&self.is_list()){returnself.id}") or txt.startswith("{if(self.is_list()&&self.contains(P1)){returnself.id}"):
         rep.ok(rid, key, "returns the first (outermost) list on the path to the node", t.loc)
     else:
         rep.violation(rid, key, "get_top_level_surrounding_list_id no longer returns the outermost list containing the node", t.loc)
     t = facts.fn("Tree::is_header")
     rep.saw_fn(t)
-    txt = fb.show(t.body, maxdepth=30).replace(" ", "")
+    txt = fb.show_canon(t, t.body, maxdepth=30).replace(" ", "")
     key = t.def_ + "|sections-outside-lists"
-    if "if(self.is_section()&&self.id_eq(id)){returntrue}" in txt and "ifself.is_list(){returnfalse}" in txt:
+    if ("if(self.is_section()&&self.id_eq(P1)){returntrue}" in txt or "if(self.id_eq(P1)&&self.is_section()){returntrue}" in txt) and "ifself.is_list(){returnfalse}" in txt \
+            and txt.rstrip("}").endswith("self.children.iter().any(|c0|c0.is_header(P1))"):
         rep.ok(rid, key, "true for a section with that id, never below a list", t.loc)
     else:
         rep.violation(rid, key, "Tree::is_header no longer selects exactly the sections that are not inside a list", t.loc)
